@@ -73,3 +73,48 @@ func VerifModel_time_Ticker_Stop(t *time.Ticker) {}
 func VerifModel_rand_Float64() float64 { return 0 }
 
 var _ = rand.Float64
+
+// time.NewTimer / time.After: a timer of less than a millisecond is already due (the scheduler
+// decides whether a select takes it before any other ready case); a longer one does not fire
+// within the handful of steps of a harness schedule. Stop reports "not yet fired".
+func VerifModel_time_NewTimer(d time.Duration) *time.Timer {
+	return &time.Timer{C: VerifModel_time_After(d)}
+}
+
+func VerifModel_time_Timer_Stop(t *time.Timer) bool { return true }
+
+func VerifModel_time_After(d time.Duration) <-chan time.Time {
+	c := make(chan time.Time, 1)
+	if d < time.Millisecond {
+		c <- time.Time{}
+	}
+	return c
+}
+
+// sync.Pool: Get hands back the most recently Put object (what the per-P private slot does on
+// one processor) or a fresh one.
+type syncPoolModel struct{ items []interface{} }
+
+var syncPools = map[*sync.Pool]*syncPoolModel{}
+
+func VerifModel_sync_Pool_Get(p *sync.Pool) interface{} {
+	pm := syncPools[p]
+	if pm != nil && len(pm.items) > 0 {
+		x := pm.items[len(pm.items)-1]
+		pm.items = pm.items[:len(pm.items)-1]
+		return x
+	}
+	if p.New != nil {
+		return p.New()
+	}
+	return nil
+}
+
+func VerifModel_sync_Pool_Put(p *sync.Pool, x interface{}) {
+	pm := syncPools[p]
+	if pm == nil {
+		pm = &syncPoolModel{}
+		syncPools[p] = pm
+	}
+	pm.items = append(pm.items, x)
+}
